@@ -19,7 +19,10 @@ import (
 
 // SiblingDiff is an allowed difference: a line of the first and/or the second function (after
 // renaming); an empty side means the line exists only on the other side.
-type SiblingDiff struct{ A, B, Why string }
+type SiblingDiff struct {
+	A, B, Why string
+	Must      bool // the difference is essential: its absence (both siblings agree there) is a failure
+}
 
 func printBody(n ast.Node) []string {
 	var sb strings.Builder
@@ -87,6 +90,7 @@ func (c *Ctx) SiblingsEqual(rule, aRef, bRef string, renames [][2]string, allowe
 	onlyB = append(onlyB, b[j:]...)
 	// consume allowed differences
 	useA, useB := map[int]bool{}, map[int]bool{}
+	var missingMust []string
 	for _, d := range allowed {
 		ia, ib := -1, -1
 		for k, l := range onlyA {
@@ -108,9 +112,12 @@ func (c *Ctx) SiblingsEqual(rule, aRef, bRef string, renames [][2]string, allowe
 			if ib >= 0 {
 				useB[ib] = true
 			}
+		} else if d.Must {
+			missingMust = append(missingMust, "the siblings no longer differ as they must (`"+d.A+"` vs `"+d.B+"`: "+d.Why+")")
 		}
 	}
 	var bad []string
+	bad = append(bad, missingMust...)
 	for k, l := range onlyA {
 		if !useA[k] {
 			bad = append(bad, "only in "+short(aRef)+": `"+l+"`")
